@@ -209,13 +209,15 @@ InModel(c, t, f, k) ==
 
 \* the fixed part of every run of the check, whatever the tier and the seed: the right loader class, every field
 \* of every container cut off inside / swapped with another key's value / with a length running past the end /
-\* not UTF-8, and every passphrase relation on the intact file
+\* not UTF-8 / replaced by another valid name / set to 1, and every passphrase relation on the intact file
 Core(cls, kt, fmt, k) ==
-  /\ cls = Natural(kt)
-  /\ \/ k.idx > 0 /\ k.pw = PwFit(fmt)
-        /\ k.class \in {"trunc_inside", "swapped", "len_beyond_end", "bad_utf8", "mismatch", "wrong_sequence", "salt_non_hex",
-                        "ct_not_block_multiple", "non_ascii_char"}
-     \/ k.idx = 0 /\ k.class \in {"intact", "empty", "non_utf8_byte"}
+  \/ /\ cls = Natural(kt)
+     /\ \/ k.idx > 0 /\ k.pw = PwFit(fmt)
+           /\ k.class \in {"trunc_inside", "swapped", "len_beyond_end", "bad_utf8", "mismatch", "wrong_sequence", "salt_non_hex",
+                           "ct_not_block_multiple", "non_ascii_char", "other_valid", "one"}
+        \/ k.idx = 0 /\ k.class \in {"intact", "empty", "non_utf8_byte"}
+  \* ... and a tag line that names the loader class in use over a body of another key type
+  \/ cls # Natural(kt) /\ k.idx > 0 /\ k.class = "other_tag" /\ Grammar(kt, fmt)[k.idx].n = "begin"
 
 (* --- which files can still yield a key *)
 \* classes after which the loader cannot succeed (conformance predictions only)
